@@ -247,3 +247,13 @@ def guard_index_call(site):
         if not incl and hi[0] == "len" and canon(hi[1]) == canon(obj):
             return "index is the variable of `for i in _..x.len()` over the indexed object"
     return None
+
+
+def t1_common(site):
+    """guards shared by every ledger user"""
+    x = site.extra
+    if site.kind == "index":
+        a = x.get("args") or []
+        if len(a) == 2 and a[1][0] == "agg" and a[1][1].endswith("RangeFull::RangeFull"):
+            return "full-range slice `x[..]` cannot fail"
+    return None
